@@ -14,6 +14,20 @@ import (
 const rtwPkgPath = modPath + "/zz_verif/rtw"
 
 func (e *Engine) findFuncByName(full string) *ssa.Function {
+	// anonymous functions: "pkgpath.Func$1" (possibly nested "$1$2") are found through the parent
+	if i := strings.LastIndex(full, "$"); i > 0 {
+		parent := e.findFuncByName(full[:i])
+		if parent == nil {
+			return nil
+		}
+		for _, af := range parent.AnonFuncs {
+			if af.String() == full {
+				e.ensureBuilt(af)
+				return af
+			}
+		}
+		return nil
+	}
 	// full: "pkgpath.Func" or "(*pkgpath.Type).Method" / "(pkgpath.Type).Method"
 	for _, pk := range e.prog.AllPackages() {
 		pp := pk.Pkg.Path()
@@ -92,6 +106,31 @@ func (p *Path) foldSSA(v ssa.Value, depth int) Value {
 func registerStatic(e *Engine) {
 	in := e.intrinsics
 	in[rtwPkgPath+".Static"] = func(p *Path, a []Value) Value { return VBool{tTrue} }
+	// command-line glue: the client context is environment. GetClientQueryContext yields an empty
+	// context, PrintString appends to the path's output, which rtw.Printed() hands to the harness.
+	const CL = "github.com/cosmos/cosmos-sdk/client."
+	in[CL+"GetClientQueryContext"] = func(p *Path, a []Value) Value {
+		fn := p.eng.findFuncByName(CL + "GetClientQueryContext")
+		if fn == nil {
+			panic(engErr("client.GetClientQueryContext not in program"))
+		}
+		ct := fn.Signature.Results().At(0).Type()
+		return tuple(zeroValue(ct), nilErr)
+	}
+	in["("+CL+"Context).PrintString"] = func(p *Path, a []Value) Value {
+		if p.printed == nil {
+			p.printed = StrC("")
+		}
+		p.printed = StrConcat(p.printed, tStr(a[1]))
+		return nilErr
+	}
+	in[rtwPkgPath+".PrepareCmd"] = func(p *Path, a []Value) Value { p.printed = nil; return nil }
+	in[rtwPkgPath+".Printed"] = func(p *Path, a []Value) Value {
+		if p.printed == nil {
+			return VStr{StrC("")}
+		}
+		return VStr{p.printed}
+	}
 	in[rtwPkgPath+".KeeperAuthority"] = func(p *Path, a []Value) Value {
 		module := cStr(a[0], "module")
 		fn := p.eng.findFuncByName(modPath + "/app.NewApp")
@@ -336,6 +375,7 @@ func registerStatic(e *Engine) {
 						out = append(out, VStr{StrC(sc.String())})
 					} else if x.Call.IsInvoke() {
 						out = append(out, VStr{StrC("invoke:" + x.Call.Method.Name())})
+						out = append(out, VStr{StrC("invoketype:" + x.Call.Value.Type().String() + "." + x.Call.Method.Name())})
 					}
 				case *ssa.Lookup:
 					if c, ok := x.Index.(*ssa.Const); ok && c.Value != nil && c.Value.Kind() == constant.String {
